@@ -12,7 +12,8 @@ RULE = ("Hypothesis: original (well-formed, 2 channels, any construction route /
         "{Sequence.copy, split(caps), sequences_split_bars with either re-quantisation setting, Bar.copy, Track.copy, "
         "Composition.copy} x an op list (1-4 public operations: set_channel, transpose, scale, pad, quantise, cutoff, normalise, "
         "quantise_note_lengths, edits through messages_abs()/messages_rel(), add messages, merge/concatenate with throw-away "
-        "arguments) applied to one side, then an op list applied to the other side. Oracle: right after derivation a copy's "
+        "arguments) applied to one side, then an op list applied to the other side; split capacities as drawn or re-cut to end on the "
+        "source's final tick, with a non-note event placed there. Oracle: right after derivation a copy's "
         "canonical content (and signature / key / bar and track counts) equals the original's and copy == original; after each "
         "op list the untouched side's canonical content read through BOTH views on a replica is unchanged, its two raw views "
         "still agree, and no message object is shared between the two sides. Non-trivial: the op lists contain an operation "
